@@ -181,7 +181,7 @@ func (c *FnCtx) execCall(st *State, in ssa.Instruction, cc *ssa.CallCommon) Val 
 		c.abstracted[name+" (pure: result unconstrained)"]++
 	} else {
 		c.abstracted[name+" (heap havocked, result unconstrained, assumed not to panic)"]++
-		c.havocHeap(st, "")
+		c.havocHeapLib(st)
 	}
 	if cc.Signature().Results().Len() == 0 {
 		return VTuple{}
